@@ -83,12 +83,13 @@ def write_files(d, files):
             fh.write(text)
 
 
-def compile_capy(workdir, files, main="main.capy", mod_dir=None, cpu_s=20, extra=(), cli=None):
-    """files: {relative path: text}. The CLI runs with cwd=workdir (fresh), always with --mod-dir."""
+def compile_capy(workdir, files, main="main.capy", mod_dir=None, cpu_s=20, extra=(), cli=None, wrap=(), mem_gb=6):
+    """files: {relative path: text}. The CLI runs with cwd=workdir (fresh), always with --mod-dir.
+    wrap: command prefix (e.g. valgrind ...) put in front of the CLI."""
     write_files(workdir, files)
     shutil.rmtree(os.path.join(workdir, "out"), ignore_errors=True)
-    cmd = [cli or C.CLI, "build", main, "--mod-dir", mod_dir or C.REPO, "--no-exec", "--color", "never"] + list(extra)
-    r = C.run_proc(cmd, cwd=workdir, cpu_s=cpu_s, mem_gb=6)
+    cmd = list(wrap) + [cli or C.CLI, "build", main, "--mod-dir", mod_dir or C.REPO, "--no-exec", "--color", "never"] + list(extra)
+    r = C.run_proc(cmd, cwd=workdir, cpu_s=cpu_s, mem_gb=mem_gb)
     c = Compile()
     c.rc, c.sig, c.out, c.err = r.rc, r.sig, r.out, r.err
     c.timed_out, c.cpu_exceeded, c.dir, c.wall = r.timed_out, r.cpu_exceeded, workdir, r.wall
@@ -207,3 +208,21 @@ def pinned_internal_errors(prop, work):
         else:
             notes.append(f"pinned repro {f['repro']} of {f['id']} no longer ends in an internal error (accepted={c.accepted})")
     return out, notes
+
+
+MEMCHECK = ["valgrind", "-q", "--error-exitcode=0", "--leak-check=no", "--undef-value-errors=no", "--num-callers=12"]
+MEMCHECK_REPORT = re.compile(r"==\d+== (Invalid (?:read|write|free)[^\n]*|Mismatched free[^\n]*|Source and destination overlap[^\n]*|Jump to the invalid address[^\n]*)((?:\n==\d+==    (?:at|by) [^\n]*)*)")
+
+
+def memcheck_compile(workdir, files, main="main.capy", mod_dir=None, cpu_s=600):
+    """one compilation by the release CLI under valgrind memcheck (addressability errors only).
+    returns (Compile, [(kind, signature)]) - signature = kind + the first frames that belong to capy's crates"""
+    c = compile_capy(workdir, files, main=main, mod_dir=mod_dir, cpu_s=cpu_s, wrap=MEMCHECK, mem_gb=0)
+    reports = []
+    for m in MEMCHECK_REPORT.finditer(c.err):
+        kind = re.sub(r"\d+", "N", m.group(1))
+        frames = re.findall(r"(?:at|by) 0x[0-9A-F]+: (\S+)", m.group(2))
+        own = [f for f in frames if re.match(r"(capy|codegen|hir|hir_ty|parser|lexer|ast|syntax|diagnostics|line_index|topo|interner|token)\b|<(codegen|hir|hir_ty)", f)]
+        sig = kind + "|" + ">".join(re.sub(r"::h[0-9a-f]{16}", "", f) for f in (own or frames)[:3])
+        reports.append((kind, sig))
+    return c, reports
